@@ -76,4 +76,11 @@ TEXT = {
         "design_ref": "DESIGN.md section 2, C10",
         "level_note": "Trusted base: hlsim folder-transfer client (written from the protocol description), hlref parsers. Trees bounded at 300 entries / depth 4.",
     },
+    "C02": {
+        "engine": "E1 bubble world",
+        "technique": "metamorphic property-based testing (rapid; native go fuzz via rapid.MakeFuzz in thorough): the same generated session bytes under a baseline and a generated partition into Write calls must produce identical replies, transfers and server state",
+        "level_text": "Sessions come from a grammar of well-formed control and transfer streams; partitions include single bytes, dense cuts inside every fixed-size header (handshake, 20-byte transaction header and length fields, HTXF preamble, FILP/INFO/DATA headers, folder item prefixes, action words) and coalescing. Two full worlds are compared per case. Partitions are sampled from 2^(n-1).",
+        "design_ref": "DESIGN.md section 2, C02",
+        "level_note": "Trusted base: net.Pipe read/write semantics, hlsim reference client, normalisation (ids of server-initiated transactions, reference numbers, chat ids, file dates masked).",
+    },
 }
